@@ -1,29 +1,15 @@
 (* FixPartProofs.v — C13: the patch never touches the document type declaration. *)
 From Coq Require Import ZArith Lia.
-From Odf Require Import model.Base model.XmlLex model.FixPart.
+From Odf Require Import model.Base model.Chars model.XmlLex model.FixPart.
 
-Lemma find_from_ge needle : forall s i p, find_from needle s i = Some p -> (i <= p <= i + List.length s)%nat.
+Lemma find_ws_then_ge needle : forall s i p, find_ws_then needle s i = Some p -> (i <= p < i + List.length s)%nat.
 Proof.
-  induction s as [|c r IH]; intros i p H; cbn [find_from] in H.
-  - destruct needle; [injection H as <-; cbn; lia|discriminate].
-  - destruct (strip_prefix needle (c :: r)); [injection H as <-; cbn; lia|]. apply IH in H. cbn [List.length]. lia.
-Qed.
-
-Lemma dtd_end_le : forall s i q d e, dtd_end s i q d = Some e -> (i < e <= i + List.length s)%nat.
-Proof.
-  induction s as [|c r IH]; intros i q d e H; cbn [dtd_end] in H; [discriminate|]. cbn [List.length].
-  destruct q as [q|].
-  - apply IH in H. lia.
-  - destruct ((c =? 34) || (c =? 39)); [apply IH in H; lia|]. destruct (c =? 91); [apply IH in H; lia|]. destruct (c =? 93); [apply IH in H; lia|].
-    destruct ((c =? 62) && (d =? 0)%Z); [injection H as <-; lia|apply IH in H; lia].
+  induction s as [|c r IH]; intros i p H; cbn [find_ws_then] in H; [discriminate|]. cbn [List.length].
+  destruct (is_xws c && starts needle r); [injection H as <-; lia|]. apply IH in H. lia.
 Qed.
 
 Lemma root_start_le s : (root_start s <= List.length s)%nat.
-Proof.
-  unfold root_start. destruct (find_from sDOCTYPE s 0) as [pos|] eqn:E; [|lia].
-  apply find_from_ge in E. destruct (dtd_end (skipn pos s) pos None 0) as [e|] eqn:D; [|lia].
-  apply dtd_end_le in D. rewrite skipn_length in D. lia.
-Qed.
+Proof. unfold root_start. apply Nat.le_min_r. Qed.
 
 Lemma firstn_insert (s x : str) start pos : (start <= pos)%nat -> (pos <= List.length s)%nat -> firstn start (insert_at s pos x) = firstn start s.
 Proof.
@@ -36,9 +22,9 @@ Proof. unfold insert_at. rewrite !app_length. rewrite <- (firstn_skipn pos s) at
 Lemma fix_one_prefix orig start result p : (start <= List.length result)%nat ->
   firstn start (fix_one orig start result p) = firstn start result /\ (List.length result <= List.length (fix_one orig start result p))%nat.
 Proof.
-  intros Hl. unfold fix_one. destruct (contains _ _); [split; [reflexivity|lia]|].
-  destruct (find_from sXMLNS_SP (skipn start result) start) as [pos|] eqn:E; [|split; [reflexivity|lia]].
-  apply find_from_ge in E. rewrite skipn_length in E. split; [apply firstn_insert; lia|rewrite insert_length; lia].
+  intros Hl. unfold fix_one. destruct (declared _ _); [split; [reflexivity|lia]|].
+  destruct (find_ws_then sXMLNS (skipn start result) start) as [pos|] eqn:E; [|split; [reflexivity|lia]].
+  apply find_ws_then_ge in E. rewrite skipn_length in E. split; [apply firstn_insert; lia|rewrite insert_length; lia].
 Qed.
 
 Lemma fold_prefix orig start ps : forall result, (start <= List.length result)%nat ->
@@ -48,18 +34,22 @@ Proof.
   destruct (fix_one_prefix orig start result p Hl) as [A B]. rewrite IH by lia. exact A.
 Qed.
 
-(* whatever the part holds: everything up to the end of its document type declaration reaches the parser as it is in the
-   package - every entity declaration, every external identifier *)
+(* whatever the part holds: everything up to the end of its document type declaration (root_start) reaches the parser as it is
+   in the package - every entity declaration, every external identifier *)
 Theorem dtd_untouched s : firstn (root_start s) (fix_part s) = firstn (root_start s) s.
 Proof. unfold fix_part. apply fold_prefix. apply root_start_le. Qed.
 
 Theorem fix_part_shape s : exists tail, fix_part s = firstn (root_start s) s ++ tail.
 Proof. exists (skipn (root_start s) (fix_part s)). rewrite <- (dtd_untouched s). symmetry. apply firstn_skipn. Qed.
 
-(* without a document type declaration nothing is protected, with one the protected region ends behind it *)
+(* root_start on the shapes that were got wrong before: a comment in front that mentions a DOCTYPE; a comment and a processing
+   instruction inside the internal subset that hold brackets and quotes; and what the patch does around them *)
+Definition ex1 := s2l "<!-- <!DOCTYPE x> --><!DOCTYPE y [<!ENTITY e ""v xmlns:q y"">]><a xmlns:o='u'/>".
+Definition ex2 := s2l "<!DOCTYPE x [<!-- ]> "" --><?pi ]> '?><!ENTITY e ""v xmlns:q"">]><a xmlns:o='u'/>".
 Example root_start_examples :
-  root_start (s2l "<a xmlns:b='u'/>") = 0%nat /\
-  root_start (s2l "<!DOCTYPE x [<!ENTITY e ""v xmlns:q"">]><a/>") = 38%nat /\
-  firstn 38 (fix_part (s2l "<!DOCTYPE x [<!ENTITY e ""v xmlns:q"">]><a xmlns:o='u'/>")) = s2l "<!DOCTYPE x [<!ENTITY e ""v xmlns:q"">]>" /\
-  contains (s2l " xmlns:meta=") (fix_part (s2l "<!DOCTYPE x [<!ENTITY e ""v xmlns:q"">]><a xmlns:o='u'/>")) = true.
+  root_start (s2l "<a xmlns:b='u'/>") = 0%nat /\ root_start (s2l "<?xml version='1.0'?>  <a/>") = 0%nat /\
+  skipn (root_start ex1) ex1 = s2l "<a xmlns:o='u'/>" /\ skipn (root_start ex2) ex2 = s2l "<a xmlns:o='u'/>" /\
+  firstn (root_start ex1) (fix_part ex1) = firstn (root_start ex1) ex1 /\
+  declared (s2l "meta") (skipn (root_start ex1) (fix_part ex1)) = true /\
+  declared (s2l "o") (10 :: s2l "xmlns:o  = 'u'") = true /\ declared (s2l "o") (s2l "xxmlns:o='u'") = false.
 Proof. vm_compute. repeat split. Qed.
